@@ -11,7 +11,8 @@ from d42.utils import from_native
 MODULE = "D42.Props.C14All"
 THEOREMS = ["fromNative_total", "fromNative_refuses", "fromNative_error_kind", "fromNative_accepts",
             "fromNative_generates", "fromNative_exact",
-            "fromNative_eq_extracted", "subst_scalar_eq_extracted"]
+            "fromNative_eq_extracted", "subst_scalar_eq_extracted",
+            "extracted_ladder_accepts", "extracted_ladder_error_kind"]
 FILES = ["D42/Model/Data.lean", "D42/Model/Validate.lean", "D42/Model/Subst.lean", "D42/Model/Gen.lean",
          "D42/Spec/Conforms.lean", "D42/Props/C02.lean", "D42/Props/C14.lean",
          "D42/Model/CheckProg.lean", "D42/Model/SubstProg.lean", "D42/Gen/SubstProg.lean", "D42/Props/SubstProg.lean", "D42/Props/C14All.lean"]
